@@ -192,6 +192,9 @@ fn big_star(rng: &mut Rng, w: i32, h: i32) -> Path {
 
 fn gen_history(rng: &mut Rng, w: i32, h: i32, len: usize) -> Vec<Unit> {
     let mut units = Vec::new();
+    // a few solid colours that come back throughout the history, on spans of different lengths (whatever is kept
+    // between calls - a row buffer, a remembered colour - meets the same colour again with another extent)
+    let palette: Vec<u32> = (0..3).map(|_| premul_pixel(rng)).collect();
     let mut clip_depth = 0;
     // clip paths pushed so far: the same path comes back later under another enclosing clip
     let mut pushed_paths: Vec<Path> = Vec::new();
@@ -268,6 +271,27 @@ fn gen_history(rng: &mut Rng, w: i32, h: i32, len: usize) -> Vec<Unit> {
                 }
                 g.push(Op::PopLayer);
                 units.push(Unit::Group(g));
+            }
+            12 if clip_depth < 3 && rng.chance(0.4) && w >= 4 && h >= 4 => {
+                // a layer pushed under a small clip rectangle that is popped while the layer is open; a clip path
+                // pushed inside the layer outlives it: afterwards the visible state is just "one more clip path"
+                let (x0, y0) = (rng.int(0, w as i64 - 3) as i32, rng.int(0, h as i64 - 3) as i32);
+                let p = if rng.chance(0.5) { big_star(rng, w, h) } else { random_path(rng, w, h, false) };
+                pushed_paths.push(p.clone());
+                let mut g = vec![Op::PushClipRect(x0, y0, x0 + rng.int(1, 3) as i32, y0 + rng.int(1, 3) as i32), Op::PushLayer(*rng.pick(&[1.0f32, 0.5]), BlendMode::SrcOver), Op::PopClip, Op::PushClip(p)];
+                if rng.chance(0.5) {
+                    g.push(gen_draw(rng, w, h));
+                }
+                g.push(Op::PopLayer);
+                units.push(Unit::Group(g));
+                clip_depth += 1;
+            }
+            10 | 11 if rng.chance(0.5) => {
+                let c = *rng.pick(&palette[..]);
+                let o = opts(if rng.chance(0.7) { BlendMode::SrcOver } else { random_mode(rng) }, 1., rng.chance(0.7));
+                let (x, rw) = (rng.int(0, w as i64 - 1) as f32, rng.int(1, w as i64) as f32);
+                let y = rng.int(0, h as i64 - 1) as f32;
+                units.push(Unit::One(if rng.chance(0.6) { Op::FillRect(x, y, rw, rng.int(1, 3) as f32, SrcSpec::Solid(c), o) } else { Op::Fill(rect_path(x + 0.5, y, rw, 1.5), SrcSpec::Solid(c), o) }));
             }
             9 if rng.chance(0.3) => {
                 // the same clear before and after a call that writes pixels by another route
